@@ -18,7 +18,8 @@
    supply AFTER burning, [true] the repaired order; [v_edit_keep = false] is EditBasket taking
    the recorded amount from the proposal, [true] keeping the stored one (committed as 68b9c08);
    [v_upsert_skip = false] is AfterUpsertStakingPool storing an empty record under Id 1 when its
-   lookup fails, [true] skipping (fixes/C11-upsert-hook-skip.patch).  The harness probes which
+   lookup fails, [true] skipping (committed as 853c45f); [v_create_zero = false] is CreateBasket
+   taking the recorded amount from the proposal, [true] storing zero (fixes/C11-create-zero-amount.patch).  The harness probes which
    variant the tree implements; theorems are proved for the repaired variant and refuted, with
    witnesses, for the current one. *)
 From Sekai Require Import Base.Prelude Base.Dec.
@@ -30,10 +31,13 @@ Record basket := mkB {
   b_fee : dec; b_slip : dec; b_cap : dec; b_period : Z;
   b_mmin : Z; b_mmax : Z; b_bmin : Z; b_bmax : Z; b_smin : Z; b_smax : Z;
   b_md : bool; b_bd : bool; b_sd : bool }.
-Record variant := mkV { v_burn_pre : bool; v_edit_keep : bool; v_upsert_skip : bool }.
+Record variant := mkV { v_burn_pre : bool; v_edit_keep : bool; v_upsert_skip : bool; v_create_zero : bool }.
 Definition history := list (Z * Z).          (* (block time in unix nanoseconds, amount registered at that time) *)
+(* [s_bk] is basket 1, on which the holders act; [s_sibs] are the records of the other baskets
+   (ids 2, 3, ... in order), which share reserve denominations and the module account with it and
+   are touched by the create / withdraw-surplus proposals *)
 Record state := mkS { s_bk : basket; s_bal : Z -> Z -> Z; s_supply : Z;
-                      s_hm : history; s_hb : history; s_hs : history }.
+                      s_hm : history; s_hb : history; s_hs : history; s_sibs : list basket }.
 
 Definition MODULE : Z := 0.
 Definition BDENOM : Z := 0.
@@ -186,7 +190,7 @@ Definition mint (s : state) (now a : Z) (dep : coins) : outcome state :=
   do capok <- validate_cap (b_cap b) ts;
   if negb capok then Err "token exceeding cap" else
   let bal := bal_add (send (s_bal s) a MODULE dep) a BDENOM minted in
-  Ok (mkS (set_amount (set_tokens b ts) (b_amount b + minted)) bal (s_supply s + minted) hm (s_hb s) (s_hs s)).
+  Ok (mkS (set_amount (set_tokens b ts) (b_amount b + minted)) bal (s_supply s + minted) hm (s_hb s) (s_hs s) (s_sibs s)).
 
 (* ---------------------------------------------------------------- burn *)
 Fixpoint withdraw_coins (ts : list token) (portion : dec) : outcome coins :=
@@ -219,7 +223,7 @@ Definition burn (v : variant) (s : state) (now a d x : Z) : outcome state :=
   do capok <- validate_cap (b_cap b) ts;
   if negb capok then Err "token exceeding cap" else
   let bal := send (bal_add (s_bal s) a BDENOM (- x)) MODULE a outs in
-  Ok (mkS (set_amount (set_tokens b ts) (b_amount b - x)) bal supply' (s_hm s) hb (s_hs s)).
+  Ok (mkS (set_amount (set_tokens b ts) (b_amount b - x)) bal supply' (s_hm s) hb (s_hs s) (s_sibs s)).
 
 (* ---------------------------------------------------------------- swap *)
 Record swap_acc := mkA { a_ts : list token; a_sur : coins; a_bal : Z -> Z -> Z; a_hs : history; a_outs : coins }.
@@ -287,7 +291,7 @@ Definition swap (s : state) (now a : Z) (ps : list (Z * Z * Z)) : outcome state 
   let sur := coins_add_all (a_sur acc) (snd ff) in
   do capok <- validate_cap (b_cap b) (a_ts acc);
   if negb capok then Err "token exceeding cap" else
-  Ok (mkS (set_surplus (set_tokens b (a_ts acc)) sur) bal (s_supply s) (s_hm s) (s_hb s) (a_hs acc)).
+  Ok (mkS (set_surplus (set_tokens b (a_ts acc)) sur) bal (s_supply s) (s_hm s) (s_hb s) (a_hs acc) (s_sibs s)).
 
 (* ---------------------------------------------------------------- EditBasket (proposal) *)
 Fixpoint has_denom (ts : list token) (d : Z) : bool :=
@@ -311,7 +315,7 @@ Definition edit (v : variant) (s : state) (new : basket) : outcome state :=
   if trunc_int (zsum vs) <? s_supply s then Err "basket denom supply too big" else
   let nb := set_surplus (set_tokens new ts) (b_surplus b) in
   let nb := if v_edit_keep v then set_amount nb (b_amount b) else nb in
-  Ok (mkS nb (s_bal s) (s_supply s) (s_hm s) (s_hb s) (s_hs s))
+  Ok (mkS nb (s_bal s) (s_supply s) (s_hm s) (s_hb s) (s_hs s) (s_sibs s))
   end.
 
 (* ---------------------------------------------------------------- hooks, emergency switches, end block *)
@@ -347,9 +351,55 @@ Inductive op : Type :=
 | OSlashHook | ORaiseHook
 | OSlashW (d : Z) (slash : dec)              (* loop body of the slash hook (unreachable today) *)
 | OEndBlock (now : Z)
-| OUpsertHook (stake_enabled : bool).
+| OUpsertHook (stake_enabled : bool)
+| OWithdraw (ids : list Z) (target : Z)      (* ProposalBasketWithdrawSurplus: basket ids as listed, receiver *)
+| OCreate (new : basket).                    (* ProposalCreateBasket *)
 
-Definition with_bk (s : state) (b : basket) : state := mkS b (s_bal s) (s_supply s) (s_hm s) (s_hb s) (s_hs s).
+(* ---------------------------------------------------------------- proposals over several baskets *)
+Fixpoint upd_nth (l : list basket) (n : nat) (b : basket) : list basket :=
+  match l, n with
+  | [], _ => []
+  | _ :: r, O => b :: r
+  | x :: r, S k => x :: upd_nth r k b
+  end.
+Definition get_bk (s : state) (id : Z) : option basket :=
+  if id =? 1 then Some (s_bk s) else if id <? 2 then None else nth_error (s_sibs s) (Z.to_nat (id - 2)).
+Definition put_bk (s : state) (id : Z) (bal : Z -> Z -> Z) (b : basket) : state :=
+  if id =? 1 then mkS b bal (s_supply s) (s_hm s) (s_hb s) (s_hs s) (s_sibs s)
+  else mkS (s_bk s) bal (s_supply s) (s_hm s) (s_hb s) (s_hs s) (upd_nth (s_sibs s) (Z.to_nat (id - 2)) b).
+(* BasketWithdrawSurplus: for every listed id IN ORDER read the record, send its surplus from the
+   module account to the receiver, store it with an empty surplus (a repeated id finds the surplus
+   already empty; an unknown id fails the whole proposal).  The claim of staking rewards of the
+   module account that follows is not modelled (the module account holds no delegation). *)
+Fixpoint withdraw_ids (s : state) (target : Z) (ids : list Z) : outcome state :=
+  match ids with
+  | [] => Ok s
+  | id :: r =>
+      match get_bk s id with
+      | None => Err "basket does not exist"
+      | Some b =>
+          if negb (has_funds (s_bal s) MODULE (b_surplus b)) then Err "insufficient funds"
+          else withdraw_ids (put_bk s id (send (s_bal s) MODULE target (b_surplus b)) (set_surplus b [])) target r
+      end
+  end.
+(* CreateBasket: next id, empty surplus, zero reserves; no tokens / zero weight / duplicates rejected.
+   The recorded amount is taken from the proposal as it is (variant [v_create_zero = false]). *)
+Fixpoint create_tokens (seen new : list token) : outcome (list token) :=
+  match new with
+  | [] => Ok []
+  | t :: r =>
+      if t_weight t =? 0 then Err "token weight should not be zero" else
+      if has_denom seen (t_denom t) then Err "duplicate denom" else
+      do rest <- create_tokens (t :: seen) r;
+      Ok (with_amount t 0 :: rest)
+  end.
+Definition create (v : variant) (s : state) (new : basket) : outcome state :=
+  match b_tokens new with [] => Err "empty underlying tokens" | _ =>
+  do ts <- create_tokens [] (b_tokens new);
+  Ok (mkS (s_bk s) (s_bal s) (s_supply s) (s_hm s) (s_hb s) (s_hs s) (s_sibs s ++ [set_surplus (set_tokens (if v_create_zero v then set_amount new 0 else new) ts) []]))
+  end.
+
+Definition with_bk (s : state) (b : basket) : state := mkS b (s_bal s) (s_supply s) (s_hm s) (s_hb s) (s_hs s) (s_sibs s).
 
 Definition step (v : variant) (s : state) (o : op) : outcome state :=
   match o with
@@ -366,8 +416,10 @@ Definition step (v : variant) (s : state) (o : op) : outcome state :=
   | OSlashW d slash => do ts <- slash_token (b_tokens (s_bk s)) d slash; Ok (with_bk s (set_tokens (s_bk s) ts))
   | OEndBlock now =>
       let p := b_period (s_bk s) in
-      Ok (mkS (s_bk s) (s_bal s) (s_supply s) (clear_old (s_hm s) now p) (clear_old (s_hb s) now p) (clear_old (s_hs s) now p))
+      Ok (mkS (s_bk s) (s_bal s) (s_supply s) (clear_old (s_hm s) now p) (clear_old (s_hb s) now p) (clear_old (s_hs s) now p) (s_sibs s))
   | OUpsertHook se => Ok (if se && negb (v_upsert_skip v) then with_bk s shell else s)
+  | OWithdraw ids target => withdraw_ids s target ids
+  | OCreate new => create v s new
   end.
 
 (* a failed message changes nothing *)
@@ -375,4 +427,4 @@ Definition apply (v : variant) (s : state) (o : op) : state :=
   match step v s o with Ok s' => s' | _ => s end.
 Definition run (v : variant) (s : state) (ops : list op) : state := fold_left (apply v) ops s.
 
-Definition init_state (b : basket) (bal : Z -> Z -> Z) (supply : Z) : state := mkS b bal supply [] [] [].
+Definition init_state (b : basket) (bal : Z -> Z -> Z) (supply : Z) (sibs : list basket) : state := mkS b bal supply [] [] [] sibs.
